@@ -40,6 +40,10 @@ func (c *t8ctx) timeExpr(e ast.Expr) string {
 		return "now"
 	case s == "r.maxAge":
 		return "maxAge"
+	case s == "p.maxSubmit":
+		return "maxSubmit"
+	case s == c.elem+".SubmitTime":
+		return "submit"
 	}
 	if call, ok := e.(*ast.CallExpr); ok {
 		if id, ok := call.Fun.(*ast.Ident); ok && id.Name == "lastUpdate" && len(call.Args) == 2 && types.ExprString(call.Args[1]) == c.elem {
